@@ -392,6 +392,61 @@ func init() {
 			st.States, st.Transitions, st.Nontrivial = st.Execs, st.Execs, st.Execs
 			st.NOutcomes = int(st.Execs)
 		}
+		// the same key fetched again after a reload changed the server's compress settings (the origin's validator unchanged):
+		// what is stored and sent for the new generation follows the CURRENT settings
+		if c.Want("refetch-after-reload") && c.Shard == 1%c.NShards {
+			st := c.Stat("refetch-after-reload", "enumeration")
+			type set struct{ Min, Filter string }
+			lo, hi, other := set{"1kb", ""}, set{"3000", "text"}, set{"100", "json|image"}
+			st.Bounds = "a 2000-byte text/plain answer with a strong ETag, max-age=2, cached under server settings A, reload to B, clock +3, fetched again and hit by clients {gzip, br, none}: A->B in {1kb/default -> 3000/text, 1kb/default -> 100/json|image (type no longer matches), 3000/text -> 1kb/default}"
+			for _, tr := range []struct {
+				a, b     set
+				compress bool // under B the 2000-byte text body is stored compressed
+			}{{lo, hi, false}, {lo, other, false}, {hi, lo, true}} {
+				cfg := env.BasicConfig(config.CacheConfig{})
+				cfg.Servers[0].Addr = "127.0.0.1:0"
+				cfg.Servers[0].CompressMinLength, cfg.Servers[0].CompressContentTypeFilter = tr.a.Min, tr.a.Filter
+				e := env.New(cfg)
+				vtime.Set(vtime.Base)
+				raw := []byte(c20Payload(2000))
+				e.Respond = func(oc *env.OriginCall) env.OriginResp {
+					return env.OriginResp{Status: 200, Header: http.Header{"Cache-Control": {"max-age=2"}, "Content-Type": {"text/plain"}, "ETag": {`"v1"`}}, Body: raw}
+				}
+				e.Do(env.Req{URI: "/c", Rid: "a1", Header: http.Header{"Accept-Encoding": {"gzip"}}})
+				e.Do(env.Req{URI: "/c", Rid: "a2", Header: http.Header{"Accept-Encoding": {"br"}}})
+				cfg2 := *cfg
+				cfg2.Servers = append([]config.ServerConfig(nil), cfg.Servers...)
+				cfg2.Servers[0].CompressMinLength, cfg2.Servers[0].CompressContentTypeFilter = tr.b.Min, tr.b.Filter
+				if err := env.Apply(&cfg2); err != nil {
+					c.Violation("refetch-after-reload", "reload-failed", err.Error(), nil, nil, nil)
+					continue
+				}
+				e.Rebind()
+				vtime.Add(3)
+				for n, ae := range []string{"gzip", "br", "", "gzip"} {
+					hdr := http.Header{}
+					if ae != "" {
+						hdr.Set("Accept-Encoding", ae)
+					}
+					r := e.Do(env.Req{URI: "/c", Rid: fmt.Sprintf("b%d", n), Header: hdr})
+					e.Events()
+					st.Execs++
+					want := ""
+					if tr.compress {
+						want = ae
+					}
+					dec, derr := refDecode(r.Header.Get("Content-Encoding"), r.Body)
+					kase := map[string]interface{}{"before": tr.a, "after": tr.b, "accept": ae, "request": n}
+					if got := r.Header.Get("Content-Encoding"); r.Status != 200 || got != want || derr != nil || !bytes.Equal(dec, raw) {
+						c.Violation("refetch-after-reload", fmt.Sprintf("encoding-%q-expected-%q-after-reload", got, want), fmt.Sprintf("settings changed from %v to %v by a reload, the entry expired and was fetched again (label %s): a client accepting %q got Content-Encoding %q (status %d), the table under the current settings says %q", tr.a, tr.b, r.XStatus, ae, got, r.Status, want), nil, kase, nil)
+					}
+				}
+				e.Close()
+			}
+			procEnv, procCfgKey = nil, ""
+			st.States, st.Transitions, st.Nontrivial = st.Execs, st.Execs, st.Execs
+			st.NOutcomes = int(st.Execs)
+		}
 		// the request that fills the cache is answered from what was stored, like every later hit
 		if c.Want("fill-request-like-hits") && c.Shard == 0 {
 			st := c.Stat("fill-request-like-hits", "enumeration")
